@@ -9,3 +9,8 @@ Print Assumptions element_layer_model_is_the_regenerated_glue.
 Theorem regenerated_glue_yields_the_model_value : regenerated_glue_gives_the_model_value.
 Proof. exact glue_value. Qed.
 Print Assumptions regenerated_glue_yields_the_model_value.
+
+Theorem element_level_parameter_defaults_as_documented : element_level_defaults_as_documented.
+Proof. exact defaults_tie. Qed.
+Print Assumptions element_level_parameter_defaults_as_documented.
+
